@@ -24,6 +24,7 @@ class Context:
         self.notes = []
         self.extra = {}
         self.changed_units = []      # modelled source units whose text changed since the model was validated (advisory)
+        self.changed_constructs = [] # translated constructs that could not be regenerated / were regenerated differently (advisory)
         self.t0 = time.time()
 
     @property
@@ -33,7 +34,7 @@ class Context:
     @property
     def widen(self):
         """search harder: an obligation is broken, or the source of a modelled unit changed"""
-        return bool(self.broken) or bool(self.changed_units)
+        return bool(self.broken) or bool(self.changed_units) or bool(self.changed_constructs)
 
 
 # ------------------------------------------------------------------------------------------------
@@ -573,7 +574,7 @@ REGISTRY = {
     "C04": Spec("FFSM2.Props.C04", ["config"], machine_run("C04", ("random", "pingpong")), extra=("FFSM2.Props.History",)),
     "C05": Spec("FFSM2.Props.C05", ["ids", "phases"], machine_run("C05"), extra=("FFSM2.Props.History", "FFSM2.Props.CycleHistory")),
     "C06": Spec("FFSM2.Props.C06", ["ids"], machine_run("C06"), extra=("FFSM2.Props.History",)),
-    "C07": Spec("FFSM2.Props.C07", ["ids"], machine_run("C07"), extra=("FFSM2.Props.History",)),
+    "C07": Spec("FFSM2.Props.C07", ["ids"], machine_run("C07"), extra=("FFSM2.Props.History", "FFSM2.Props.OutcomeHistory")),
     "C08": Spec("FFSM2.Props.C08", ["ids", "config"], machine_run("C08", ("random", "planveto", "statusfirst")), extra=("FFSM2.Props.PlanHistory",)),
     "C09": Spec("FFSM2.Props.C09", ["ids", "config"], machine_run("C09", ("random", "planveto", "reactivate", "statusfirst")), extra=("FFSM2.Props.History", "FFSM2.Props.OutcomesHistory")),
     "C11": Spec("FFSM2.Props.C11", ["ids"], machine_run("C11", ("random", "replica")), extra=("FFSM2.Props.History", "FFSM2.Props.OutcomeHistory")),
@@ -691,11 +692,21 @@ def run_property(ctx):
         return replay(ctx)
     spec = REGISTRY[ctx.prop]
     out = C.Outcome(ctx.prop)
-    # 1. translate
+    # 1. translate.  The translated definitions are the part of the model that follows the source by itself.  When a
+    #    construct cannot be regenerated (the source was rewritten beyond what the translator reads), or its regenerated
+    #    definition no longer carries the proofs, the model keeps the definition recorded when it was last validated —
+    #    exactly the status of the hand-written part of the model — and the verdict comes, as for that part, from the
+    #    correspondence (searched as in the thorough tier) and the oracles.  Neither case is a broken obligation by
+    #    itself: a behaviour-preserving rewrite must stay silent, a behaviour-changing one shows up against the model.
     failed_groups = C.translate()
-    for g, msg in failed_groups.items():
-        if g == "*" or g in spec.groups:
-            ctx.broken.append({"obligation": "translator group '%s' (model definitions regenerated from the source)" % g, "why": msg})
+    if "*" in failed_groups:
+        ctx.broken.append({"obligation": "translator (model definitions regenerated from the source)", "why": failed_groups["*"]})
+    st = C.translate_status()
+    changed_groups = list(st.get("changed", []))
+    ctx.changed_constructs = sorted(g for g in set(failed_groups) | set(changed_groups) if g in spec.groups)
+    ctx.extra["translated_constructs"] = {
+        "not_regenerated_this_run": {g: m[:200] for g, m in failed_groups.items() if g != "*"},
+        "regenerated_differently_from_last_validation": changed_groups}
     # 1b. source fingerprints of the hand-modelled functions / classes
     fp = C.fingerprints()
     if fp.get("error"):
@@ -705,25 +716,41 @@ def run_property(ctx):
     ctx.changed_units = fp.get("props", {}).get(ctx.prop, [])
     ctx.extra["fingerprinted_units"] = fp.get("units")
     ctx.extra["units_changed_since_model_validation"] = ctx.changed_units
+
     # 2. driver + proofs
-    ok, logtxt = C.ensure_driver()
-    proof = {"obligations": 0, "discharged": 0, "theorems": [], "axioms": {}, "broken": []}
-    if not ok:
-        ctx.broken.append({"obligation": "lean model does not build (lake build driver)", "why": logtxt[-1500:]})
-    if spec.module:
-        proof = C.check_proofs(ctx.prop, spec.module, ctx.tier)
-        for b in proof["broken"]:
-            ctx.broken.append({"obligation": "theorem %s in %s" % (b, spec.module), "why": proof.get("build_log", "")[-1200:]})
-        for em in spec.extra:
-            p2 = C.check_proofs(ctx.prop, em, ctx.tier, only_prefix=ctx.prop + "_")
-            for b in p2["broken"]:
-                ctx.broken.append({"obligation": "theorem %s in %s" % (b, em), "why": p2.get("build_log", "")[-1200:]})
-            proof["theorems"] = proof["theorems"] + p2["theorems"]
-            proof["obligations"] += p2["obligations"]
-            proof["discharged"] += p2["discharged"]
-            proof["axioms"].update(p2["axioms"])
-            proof["broken"] = proof["broken"] + p2["broken"]
-            proof["module"] = proof.get("module", spec.module) + " + " + em
+    def build_and_prove():
+        ok_, logtxt_ = C.ensure_driver()
+        pr = {"obligations": 0, "discharged": 0, "theorems": [], "axioms": {}, "broken": []}
+        br = []
+        if not ok_:
+            br.append({"obligation": "lean model does not build (lake build driver)", "why": logtxt_[-1500:]})
+        if spec.module:
+            pr = C.check_proofs(ctx.prop, spec.module, ctx.tier)
+            for b_ in pr["broken"]:
+                br.append({"obligation": "theorem %s in %s" % (b_, spec.module), "why": pr.get("build_log", "")[-1200:]})
+            for em in spec.extra:
+                p2 = C.check_proofs(ctx.prop, em, ctx.tier, only_prefix=ctx.prop + "_")
+                for b_ in p2["broken"]:
+                    br.append({"obligation": "theorem %s in %s" % (b_, em), "why": p2.get("build_log", "")[-1200:]})
+                pr["theorems"] = pr["theorems"] + p2["theorems"]
+                pr["obligations"] += p2["obligations"]
+                pr["discharged"] += p2["discharged"]
+                pr["axioms"].update(p2["axioms"])
+                pr["broken"] = pr["broken"] + p2["broken"]
+                pr["module"] = pr.get("module", spec.module) + " + " + em
+        return ok_, logtxt_, pr, br
+    ok, logtxt, proof, pbroken = build_and_prove()
+    if (not ok or pbroken) and changed_groups:
+        # the regenerated definitions do not carry the proofs: keep the last validated ones and let the correspondence decide
+        C.translate(force_fallback=changed_groups)
+        ok2, logtxt2, proof2, pbroken2 = build_and_prove()
+        if ok2 and not pbroken2:
+            ctx.extra["translated_constructs"]["model_keeps_last_validated_definition_of"] = changed_groups
+            ctx.extra["translated_constructs"]["because"] = [b_["obligation"] for b_ in pbroken][:6]
+            ok, logtxt, proof, pbroken = ok2, logtxt2, proof2, pbroken2
+        else:
+            ok, logtxt, proof, pbroken = ok2, logtxt2, proof2, pbroken2
+    ctx.broken += pbroken
     # 3-4. regression corpus first, then harness + correspondence (+ property oracles on the implementation)
     if ok:
         try:
